@@ -33,6 +33,7 @@ def cfg_for(profile, avoid=frozenset()):
 # mask what lies behind it); the steering is switched off when the finding is no longer listed
 AVOID_BY_KEY = {
     "codegen-error:unsupported:sdiv.i128": "divmod128",
+    "crash:crates/hir_ty/src/globals.rs:expr #N was not given a type": "switch-array-arm",
 }
 
 
